@@ -143,33 +143,11 @@ impl<R: Round> Context<R> {
     pub fn mul<const B: Word>(&self, lhs: &Repr<B>, rhs: &Repr<B>) -> Rounded<FBig<R, B>> {
         assert_finite_operands(lhs, rhs);
 
-        // at most double the precision is required to get a correct result
-        // shrink the input operands if necessary
-        let max_precision = if self.is_limited() {
-            self.precision * 2
-        } else {
-            usize::MAX
-        };
-
-        let lhs_shrink;
-        let lhs_repr = if lhs.digits() > max_precision {
-            lhs_shrink = Context::<R>::new(max_precision).repr_round_ref(lhs).value();
-            &lhs_shrink
-        } else {
-            lhs
-        };
-
-        let rhs_shrink;
-        let rhs_repr = if rhs.digits() > max_precision {
-            rhs_shrink = Context::<R>::new(max_precision).repr_round_ref(rhs).value();
-            &rhs_shrink
-        } else {
-            rhs
-        };
-
+        // The exact product is rounded once. (Rounding an operand that is longer than the
+        // precision first, however many digits are kept, can change the rounded product.)
         let repr = Repr::new(
-            &lhs_repr.significand * &rhs_repr.significand,
-            lhs_repr.exponent + rhs_repr.exponent,
+            &lhs.significand * &rhs.significand,
+            lhs.exponent + rhs.exponent,
         );
         self.repr_round(repr).map(|v| FBig::new(v, *self))
     }
@@ -193,22 +171,8 @@ impl<R: Round> Context<R> {
     pub fn sqr<const B: Word>(&self, f: &Repr<B>) -> Rounded<FBig<R, B>> {
         assert_finite(f);
 
-        // shrink the input operands if necessary
-        let max_precision = if self.is_limited() {
-            self.precision * 2
-        } else {
-            usize::MAX
-        };
-
-        let f_shrink;
-        let f_repr = if f.digits() > max_precision {
-            f_shrink = Context::<R>::new(max_precision).repr_round_ref(f).value();
-            &f_shrink
-        } else {
-            f
-        };
-
-        let repr = Repr::new(f_repr.significand.sqr().into(), 2 * f_repr.exponent);
+        // the exact power is rounded once (see `Context::mul`)
+        let repr = Repr::new(f.significand.sqr().into(), 2 * f.exponent);
         self.repr_round(repr).map(|v| FBig::new(v, *self))
     }
 
@@ -231,22 +195,8 @@ impl<R: Round> Context<R> {
     pub fn cubic<const B: Word>(&self, f: &Repr<B>) -> Rounded<FBig<R, B>> {
         assert_finite(f);
 
-        // shrink the input operands if necessary
-        let max_precision = if self.is_limited() {
-            self.precision * 3
-        } else {
-            usize::MAX
-        };
-
-        let f_shrink;
-        let f_repr = if f.digits() > max_precision {
-            f_shrink = Context::<R>::new(max_precision).repr_round_ref(f).value();
-            &f_shrink
-        } else {
-            f
-        };
-
-        let repr = Repr::new(f_repr.significand.cubic(), 3 * f_repr.exponent);
+        // the exact power is rounded once (see `Context::mul`)
+        let repr = Repr::new(f.significand.cubic(), 3 * f.exponent);
         self.repr_round(repr).map(|v| FBig::new(v, *self))
     }
 }
